@@ -265,30 +265,24 @@ func diff(a, b string, options []jd.Option) (string, bool, error) {
 		renderOptions = append(renderOptions, jd.COLOR)
 	}
 	var (
-		str      string
-		haveDiff bool
+		str string
+		// The exit status reports whether the inputs differ. It is
+		// derived from the diff itself because some differences render
+		// as the same text as no difference (e.g. merge patch "{}").
+		haveDiff = len(diff) > 0
 	)
 	switch *format {
 	case "", "jd":
 		str = diff.Render(renderOptions...)
-		if str != "" {
-			haveDiff = true
-		}
 	case "patch":
 		str, err = diff.RenderPatch()
 		if err != nil {
 			return "", false, err
 		}
-		if str != "[]" {
-			haveDiff = true
-		}
 	case "merge":
 		str, err = diff.RenderMerge()
 		if err != nil {
 			return "", false, err
-		}
-		if str != "{}" {
-			haveDiff = true
 		}
 	default:
 		return "", false, fmt.Errorf("Invalid format: %q", *format)
